@@ -72,7 +72,7 @@ def check(rspec, stats=None):
 
 
 def strategy():
-    return run_spec(families=ALL_FAMILIES, n_max=10, jac_modes=JAC_MODES + ("callable",), maxiter=(0, 60), maxfun=(1, 400), narrow=True, units=True,
+    return run_spec(families=ALL_FAMILIES, n_max=10, jac_modes=JAC_MODES + ("callable",), maxiter=(0, 60), maxfun=(1, 400), narrow=True, units=True, extras=True,
                     ftols=(0.0, 1e-12, 1e-5), gtols=(1e-8, 1e-6, 1e-5))
 
 
